@@ -46,6 +46,10 @@ def _unquote_impl(string, only_printable=False, unsafe=None):
     res = bytearray(bits[0])
     append = res.extend
 
+    # NOTE: when "%" itself must remain escaped, a dangling "%" is normalized
+    # to "%25" so it cannot combine with what follows to form a new escape
+    dangling = b"%25" if unsafe is not None and b"%" in unsafe else b"%"
+
     for item in bits[1:]:
         b = HEX_TO_BYTE.get(item[:2])
 
@@ -60,7 +64,7 @@ def _unquote_impl(string, only_printable=False, unsafe=None):
                 append(b)
                 append(item[2:])
         else:
-            append(b"%")
+            append(dangling)
             append(item)
 
     return res
@@ -110,10 +114,10 @@ def unquote(string, only_printable=False, unsafe=None, normalize_space=False):
 # NOTE: to safely unquote we don't need to replace invalid character because it would
 # imply that the parsed url was invalid from the start (except for spaces)
 
-UNSAFE_FOR_AUTH_ITEM = b" @:/?#"
-UNSAFE_FOR_PATH = b" /?#"
-UNSAFE_FOR_QUERY_ITEM = b" &=#"
-UNSAFE_FOR_FRAGMENT = b" "
+UNSAFE_FOR_AUTH_ITEM = b" %@:/?#"
+UNSAFE_FOR_PATH = b" %/?#"
+UNSAFE_FOR_QUERY_ITEM = b" %&=#"
+UNSAFE_FOR_FRAGMENT = b" %"
 
 # NOTE: those method should only be used on parsed urls to canonicalize/normalize.
 safely_unquote_auth_item = partial(
